@@ -222,8 +222,8 @@ package beacon
 // ---- C12: storing a beacon never waits on a stream consumer ------------------------------
 
 //@ func (*callbackStore).Put(c, ctx, b) (err)
-//@   props C12
-//@   flags nonblocking lockcheck
+//@   props C12 C11
+//@   flags nonblocking lockcheck delivers
 //@   requires b != nil
 
 //@ func (*callbackStore).AddCallback(c, id, fn)
@@ -302,3 +302,97 @@ package beacon
 //@ iface (CallbackStore).RemoveCallback(s, id)
 //@   trusted removes an entry of the store's own callback registry
 //@   modifies nothing
+
+// ---- C11: a beacon stream delivers every stored round once, in order, from the requested round ------------------------
+// sent(stream, r): round r was delivered on the stream; lastSent / nSent: last delivered round and number of deliveries.
+// cursorStore(c): the store a cursor walks; cursorAt(c): the round it stands on.
+//@ ghostfield sent(ref, int) bool
+//@ ghostfield lastSent(ref) int
+//@ ghostfield nSent(ref) int
+//@ ghost cursorStore(ref) ref
+//@ ghostfield cursorAt(ref) int
+
+//@ iface (SyncStream).Send(s, p) (err)
+//@   trusted gRPC server stream: a successful Send delivers the packet to the client, in call order; its errors are transport errors, never the store's end-of-data sentinel
+//@   modifies sent(s), lastSent(s), nSent(s)
+//@   ensures err == nil ==> sent(s, p.Round) && lastSent(s) == p.Round && nSent(s) == old(nSent(s)) + 1
+//@   ensures err != nil ==> lastSent(s) == old(lastSent(s)) && nSent(s) == old(nSent(s)) && !is(err, errors.ErrNoBeaconStored)
+//@   ensures forall r int :: r != p.Round ==> sent(s, r) == old(sent(s, r))
+//@   ensures old(sent(s, p.Round)) ==> sent(s, p.Round)
+//@ iface (SyncStream).Context(s) (c)
+//@   trusted accessor
+//@   modifies nothing
+//@   ensures c != nil
+
+//@ iface (github.com/drand/drand/v2/internal/chain.Cursor).Seek(c, ctx, round) (b, err)
+//@   trusted abstract cursor over the store view (the trimmed bolt cursor is checked against the labelling part under C18): Seek stands on the first stored round >= the requested one
+//@   modifies cursorAt(c)
+//@   ensures b != nil ==> err == nil && stored(cursorStore(c), b.Round) && sigOf(cursorStore(c), b.Round) == b.Signature && prevOf(cursorStore(c), b.Round) == b.PreviousSig && b.Round >= round && cursorAt(c) == b.Round && (forall r int :: round <= r && r < b.Round ==> !stored(cursorStore(c), r))
+//@   ensures b == nil ==> err != nil && (is(err, errors.ErrNoBeaconStored) ==> (forall r int :: r >= round ==> !stored(cursorStore(c), r)))
+//@ iface (github.com/drand/drand/v2/internal/chain.Cursor).Next(c, ctx) (b, err)
+//@   trusted abstract cursor: Next moves to the next stored round, or reports the end of the data
+//@   modifies cursorAt(c)
+//@   ensures b != nil ==> err == nil && stored(cursorStore(c), b.Round) && sigOf(cursorStore(c), b.Round) == b.Signature && prevOf(cursorStore(c), b.Round) == b.PreviousSig && b.Round > old(cursorAt(c)) && cursorAt(c) == b.Round && (forall r int :: old(cursorAt(c)) < r && r < b.Round ==> !stored(cursorStore(c), r))
+//@   ensures b == nil ==> err != nil && cursorAt(c) == old(cursorAt(c)) && (is(err, errors.ErrNoBeaconStored) ==> (forall r int :: r > old(cursorAt(c)) ==> !stored(cursorStore(c), r)))
+
+// theStream() / theStore(): the stream and the store of the SyncChain activation under consideration (its three closures
+// share them through captured variables; a closure's contract cannot name another closure's captured variables)
+//@ axiom [C11] context-errors-are-not-the-end-of-data-sentinel: forall e iface {ctxErr(e)} :: ctxErr(e) ==> !is(e, errors.ErrNoBeaconStored)
+//@ ghost theStream() ref
+//@ ghost theStore() ref
+
+//@ func SyncChain$1(b) (err)
+//@   props C11
+//@   requires b != nil
+//@   requires ref(stream) == theStream()
+//@   modifies sent(theStream()), lastSent(theStream()), nSent(theStream())
+//@   call Send#0: assert [C11:the-packet-sent-is-the-beacon-given] arg1.Round == b.Round && bytesEq(arg1.Signature, b.Signature) && bytesEq(arg1.PreviousSignature, b.PreviousSig)
+//@   ensures [C11:send-delivers-that-round-or-fails] (err == nil ==> sent(theStream(), b.Round) && lastSent(theStream()) == b.Round && nSent(theStream()) == old(nSent(theStream())) + 1) && (err != nil ==> lastSent(theStream()) == old(lastSent(theStream())) && nSent(theStream()) == old(nSent(theStream())) && !is(err, errors.ErrNoBeaconStored))
+//@   ensures [C11:send-touches-no-other-round] (forall r int :: r != b.Round ==> sent(theStream(), r) == old(sent(theStream(), r))) && (old(sent(theStream(), b.Round)) ==> sent(theStream(), b.Round))
+
+//@ paramfunc SyncChain$2.send(b) (err)
+//@   trusted the captured variable `send` holds the closure SyncChain$1 created by the same SyncChain activation (one assignment in the source)
+//@   sameas SyncChain$1
+//@ paramfunc SyncChain$3.send(b) (err)
+//@   trusted the captured variable `send` holds the closure SyncChain$1 created by the same SyncChain activation (one assignment in the source)
+//@   sameas SyncChain$1
+
+//@ pred sentUpTo(cs, from, upto) := forall r int :: from <= r && stored(cs, r) && r < upto ==> sent(theStream(), r)
+
+//@ func SyncChain$2(ctx, c) (err)
+//@   props C11
+//@   requires c != nil && cursorStore(c) == theStore()
+//@   modifies sent(theStream()), lastSent(theStream()), nSent(theStream()), cursorAt(c)
+//@   loop 0: invariant [C11:every-stored-round-the-cursor-has-passed-was-sent] (bb != nil ==> err == nil && bb.Round == cursorAt(c) && bb.Round >= fromRound && stored(theStore(), bb.Round) && sigOf(theStore(), bb.Round) == bb.Signature && prevOf(theStore(), bb.Round) == bb.PreviousSig && sentUpTo(theStore(), fromRound, cursorAt(c))) && (bb == nil ==> err != nil && (is(err, errors.ErrNoBeaconStored) ==> (forall r int :: fromRound <= r && stored(theStore(), r) ==> sent(theStream(), r))))
+//@   loop 0: invariant [C11:catch-up-sends-in-strictly-increasing-round-order] nSent(theStream()) > old(nSent(theStream())) && bb != nil ==> bb.Round > lastSent(theStream())
+//@   call send#0: assert [C11:catch-up-sends-the-stored-beacon-the-cursor-stands-on] arg0 != nil && arg0.Round == cursorAt(c) && stored(theStore(), arg0.Round) && sigOf(theStore(), arg0.Round) == arg0.Signature && prevOf(theStore(), arg0.Round) == arg0.PreviousSig
+//@   call send#0: assert [C11:catch-up-sends-in-strictly-increasing-round-order] nSent(theStream()) > old(nSent(theStream())) ==> arg0.Round > lastSent(theStream())
+//@   ensures [C11:a-completed-catch-up-skipped-no-stored-round] err == nil || is(err, errors.ErrNoBeaconStored) ==> (forall r int :: fromRound <= r && stored(theStore(), r) ==> sent(theStream(), r))
+
+//@ iface (SyncRequest).GetFromRound(r) (n)
+//@   trusted protobuf accessor
+//@   modifies nothing
+//@ iface (SyncRequest).GetMetadata(r) (m)
+//@   trusted protobuf accessor
+//@   modifies nothing
+
+//@ iface (github.com/drand/drand/v2/internal/chain.Store).Cursor(s, ctx, fn) (err)
+//@   trusted every back-end runs fn exactly once with a cursor over itself and returns fn's result (bolt: inside a read transaction)
+//@   invokes fn
+//@   modifies nothing
+//@   ensures err == fnresult
+
+//@ func SyncChain$3(b, closed)
+//@   props C11
+//@   requires !closed ==> b != nil
+//@   call send#0: assert [C11:live-delivery-sends-the-dispatched-beacon] arg0 == b
+
+// Other goroutines store beacons at any time: before every call of SyncChain the set of stored rounds may have grown
+// (append-only, C02). sent / lastSent belong to this activation alone.
+//@ func SyncChain(l, store, req, stream) (err)
+//@   props C11
+//@   flags interleaved
+//@   requires ref(stream) == theStream() && ref(store) == theStore() && l != nil
+//@   rely grows stored(theStore())
+//@   call AddCallback#0: assert [C11:the-head-seen-when-the-stream-started-was-delivered-before-going-live] fromRound != 0 ==> sent(theStream(), last.Round)
+//@   call AddCallback#0: assert [C11:no-stored-round-is-skipped-between-catch-up-and-live-delivery] fromRound != 0 ==> (forall r int :: fromRound <= r && stored(theStore(), r) ==> sent(theStream(), r))
